@@ -330,17 +330,22 @@ def sstr_to_int(s, base=10):
     if len(s) == 0:
         raise ValueError("invalid literal for int() with base 10: ''")
     v = _S.of(0)
-    for x in s.c:
+    cs = list(s.c)
+    neg = False
+    if len(cs) > 1 and bool(SBool(z3.Or(cpt(cs[0]) == 45, cpt(cs[0]) == 43))):
+        neg = bool(SBool(cpt(cs[0]) == 45))
+        cs = cs[1:]
+    for x in cs:
         if not bool(SBool(z3.And(cpt(x) >= 48, cpt(x) <= 57))):
-            # python also accepts other Unicode digits, '+', '-', '_' and whitespace: modelled as
+            # python also accepts other Unicode digits, '_' and surrounding whitespace: modelled as
             # ValueError only when the char is ASCII and not one of those; otherwise inconclusive
-            if bool(SBool(z3.And(cpt(x) < 128, cpt(x) != 43, cpt(x) != 45, cpt(x) != 95, cpt(x) != 32,
+            if bool(SBool(z3.And(cpt(x) < 128, cpt(x) != 95, cpt(x) != 32,
                                  z3.Not(z3.And(cpt(x) >= 9, cpt(x) <= 13)),
                                  z3.Not(z3.And(cpt(x) >= 28, cpt(x) <= 31))))):
                 raise ValueError("invalid literal for int() with base 10")
-            raise Inconclusive("int(SStr) with sign/space/non-ASCII digit")
+            raise Inconclusive("int(SStr) with space/underscore/non-ASCII digit")
         v = v * 10 + (SInt.of(x) - 48)
-    return v
+    return -v if neg else v
 
 
 def sx_ord(c):
